@@ -354,3 +354,32 @@ def replay_refuses(fl, FA, cls, monotonic, vals=None):
     except Exception as ex:  # noqa
         return {"failed": not monotonic, "expected": "RuntimeError", "observed": f"{type(ex).__name__}", "call": f"{cls}().tsukamoto(0.5)"}
     return {"failed": not monotonic, "expected": "RuntimeError (term is not monotonic)", "observed": repr(z), "call": f"{cls}().tsukamoto(0.5)"}
+
+
+def replay_endpoints(fl, FA, vals=None, cls="Arc", which="end", seed=0, n=2000, start=None, end=None, **kw):
+    """value of the real membership function AT an end point of the support, for many parameter values (or for the given pair): documented
+    value (Arc: 0 at start, height at end; SemiEllipse: 0 at both ends), never NaN"""
+    import math, random
+    rng = random.Random(seed + (0 if which == "end" else 7))
+    cases = []
+    if start is not None and end is not None:
+        cases.append((float(start), float(end), 1.0))
+    if vals and "start" in vals and "end" in vals:
+        cases.append((float(vals["start"]), float(vals["end"]), 1.0))
+    for _ in range(n if not cases else 0):
+        mag = 10 ** rng.uniform(-3, 6)
+        a, b = rng.uniform(-mag, mag), rng.uniform(-mag, mag)
+        if abs(a - b) < 1e-6:
+            continue
+        cases.append((a, b, rng.choice([1.0, 0.5, 0.25, rng.uniform(0.01, 1.0)])))
+    done = 0
+    for a, b, h in cases:
+        t = getattr(fl, cls)("t", a, b, h)
+        x = a if which == "start" else b
+        want = h if (cls == "Arc" and which == "end") else 0.0
+        got = float(t.membership(x))
+        done += 1
+        if math.isnan(got) or abs(got - want) > 1e-6 * h:
+            return {"failed": True, "class": f"endpoint:{cls}:{which}", "expected": f"{want!r} (the documented value at x = {which})", "observed": repr(got),
+                    "call": f"fl.{cls}('t', {a!r}, {b!r}, {h!r}).membership({x!r})", "cases": done}
+    return {"failed": False, "cases": done, "distinct": done}
